@@ -3044,3 +3044,692 @@ func c02NonNilErrGlobal(w *World, g *ssa.Global) bool {
 	c02NonNilMemo[g] = ok
 	return ok
 }
+
+// ---------- guard-mutation pass: must-pass forms of the verdict and execution rules ---------------------------------------
+
+// c02SaysCapability: the If edge (cond, truth) is the one on which a value equals the capability constant val — the
+// entry of the arm that handles this capability, whether the arm is a `case` of a switch, the then-branch of `c == X`
+// or the fall-through of `if c != X { continue }`.
+func c02SaysCapability(cond ssa.Value, truth bool, val string) bool {
+	switch x := cond.(type) {
+	case *ssa.UnOp:
+		if x.Op == token.NOT {
+			return c02SaysCapability(x.X, !truth, val)
+		}
+	case *ssa.BinOp:
+		if x.Op != token.EQL && x.Op != token.NEQ {
+			return false
+		}
+		q := fmt.Sprintf("%q", val)
+		isCap := func(v ssa.Value) bool {
+			k, ok := c02Unconv(v).(*ssa.Const)
+			return ok && constString(k) == q
+		}
+		if isCap(x.X) == isCap(x.Y) {
+			return false
+		}
+		return (x.Op == token.EQL) == truth
+	}
+	return false
+}
+
+// c02SaysSuccess: what the If edge (cond, truth) says about the Success flag of a plugin verdict
+// (plugin.VerificationResult.Success, a field of an exported type of the plugin framework): `r.Success`, `!r.Success`,
+// `r.Success == false`, `false != r.Success`, a local the flag was copied to — all the same SSA load. ok is false when the
+// condition is not about a verdict's Success flag.
+func c02SaysSuccess(cond ssa.Value, truth bool, depth int) (success, ok bool) {
+	if depth > 4 {
+		return false, false
+	}
+	switch x := cond.(type) {
+	case *ssa.UnOp:
+		if x.Op == token.NOT {
+			return c02SaysSuccess(x.X, !truth, depth+1)
+		}
+		if x.Op == token.MUL {
+			if fa, isFa := x.X.(*ssa.FieldAddr); isFa && fieldName(fa.X.Type(), fa.Field) == "Success" && namedOf(fa.X.Type()) == "pfw/plugin.VerificationResult" {
+				return truth, true
+			}
+		}
+	case *ssa.Field:
+		if fieldName(x.X.Type(), x.Field) == "Success" && namedOf(x.X.Type()) == "pfw/plugin.VerificationResult" {
+			return truth, true
+		}
+	case *ssa.BinOp:
+		if x.Op != token.EQL && x.Op != token.NEQ {
+			return false, false
+		}
+		for _, pr := range [][2]ssa.Value{{x.X, x.Y}, {x.Y, x.X}} {
+			if k, isK := pr[1].(*ssa.Const); isK && k.Value != nil && k.Value.Kind() == constant.Bool {
+				// v == true, v != false keep the sense; v == false, v != true invert it
+				same := (x.Op == token.EQL) == constant.BoolVal(k.Value)
+				if same {
+					return c02SaysSuccess(pr[0], truth, depth+1)
+				}
+				return c02SaysSuccess(pr[0], !truth, depth+1)
+			}
+		}
+	}
+	return false, false
+}
+
+// c02VerdictEveryPath — the must-pass form of the plugin-verdict rule (plugin/verdict-<capability>/every-path).
+//
+// Property clause: "a capability the plugin declares replaces the corresponding native check" and "verification fails
+// exactly when a validation whose action is enforce … failed". For a capability the plugin was asked to verify the
+// plugin's verdict is the only check there is (the native one is skipped by the routing). If an iteration of the verdict
+// loop can be completed — the next capability reached, or the response processing left with a nil error — on a path that
+// neither passed the edge on which the verdict's Success flag is true nor put a non-nil Error into a validation result,
+// then a signature the plugin rejected is processed exactly like one it accepted: the failed validation is neither
+// reported nor, under `enforce`, rejected. Hence, necessarily: with the edges {Success is true} and the edges behind which
+// a non-nil Error is stored in a ValidationResult removed from the graph of the response processing, neither the loop
+// header nor a success exit is reachable from the entry of the capability's arm.
+//
+// The older rule plugin/verdict-<capability> starts at the edge on which Success is false and therefore holds vacuously
+// when that edge exists but is not taken (`if strict && !r.Success`, `if false && (!r.Success)`): the path that does not
+// ask is not among the paths it looks at. This rule starts at the arm.
+//
+// Shapes accepted: `if !r.Success { store }`, `if r.Success { continue }; store`, `switch { case !r.Success: … }`,
+// `r.Success == false`, the flag copied to a local, an error local merged into a constructor call (c02ErrorStores); arm
+// entered by `case X:`, `if c == X`, `if c != X { continue }`. Not decided on names or statement order.
+func c02VerdictEveryPath(c *Ctx, R *ssa.Function, fi *FnInfo, headers map[int]bool, name, val string) {
+	w := c.W
+	key := "plugin/verdict-" + name + "/every-path"
+	rule := "plugin verdict (every path): under capability " + val + " every path from the entry of the capability's arm of the verdict loop to the next iteration or to a success exit passes the edge on which the verdict's Success flag is true or stores a non-nil Error into a validation result"
+	inLoop := map[int]bool{}
+	for h := range headers {
+		for b := range loopBlocks(R.Blocks[h]) {
+			inLoop[b] = true
+		}
+	}
+	var starts []state
+	for _, b := range R.Blocks {
+		iff, ok := blockTerm(b).(*ssa.If)
+		if !ok || len(b.Succs) != 2 || !inLoop[b.Index] {
+			continue
+		}
+		for j := 0; j < 2; j++ {
+			if c02SaysCapability(iff.Cond, j == 0, val) {
+				starts = append(starts, state{b.Succs[j].Index, 0, -1})
+			}
+		}
+	}
+	cut := map[edgeKey]bool{}
+	nStores := c02ErrorStores(w, fi, R, cut)
+	nPass := 0
+	for e := range fi.edgesMatching(func(_ string, iff *ssa.If, truth bool) bool {
+		s, ok := c02SaysSuccess(iff.Cond, truth, 0)
+		return ok && s
+	}) {
+		cut[e] = true
+		nPass++
+	}
+	c.Evals += 2
+	if len(starts) == 0 {
+		c.Bad(key, rule, w.FnPos(R), "no arm for capability "+val+" in the verdict loop of "+fnName(R))
+		return
+	}
+	if nPass == 0 || nStores == 0 {
+		c.Bad(key, rule, w.FnPos(R), fmt.Sprintf("edges on which a verdict's Success flag is true: %d, stores of a non-nil Error into a validation result: %d", nPass, nStores))
+		return
+	}
+	if fi.reachHit(starts, cut, headers) {
+		c.Bad(key, rule, w.FnPos(R), "the next iteration of the verdict loop can be reached without asking the verdict's Success flag and without recording an error: a failed plugin verdict is passed over")
+		return
+	}
+	if p := fi.successWitness(Mode{Kind: mErr}, starts, cut); p != nil {
+		c.Bad(key, rule, w.FnPos(R), "a success exit can be reached without asking the verdict's Success flag and without recording an error: a failed plugin verdict is passed over", p...)
+		return
+	}
+	c.OK(key, rule, w.FnPos(R))
+	c02VerdictResultType(c, R, fi, headers, starts, name, val)
+}
+
+// c02HasMethod: t is an interface type with a method of that name (VerifySignature is exported API of the plugin framework).
+func c02HasMethod(t types.Type, name string) bool {
+	it, ok := t.Underlying().(*types.Interface)
+	if !ok {
+		return false
+	}
+	for i := 0; i < it.NumMethods(); i++ {
+		if it.Method(i).Name() == name {
+			return true
+		}
+	}
+	return false
+}
+
+// c02LenArg: cond (through negations) compares len(v) with a constant; returns v.
+func c02LenArg(cond ssa.Value) ssa.Value {
+	for {
+		u, isU := cond.(*ssa.UnOp)
+		if !isU || u.Op != token.NOT {
+			break
+		}
+		cond = u.X
+	}
+	bo, ok := cond.(*ssa.BinOp)
+	if !ok {
+		return nil
+	}
+	for _, o := range []ssa.Value{bo.X, bo.Y} {
+		if call, isC := o.(*ssa.Call); isC {
+			if bi, isB := call.Call.Value.(*ssa.Builtin); isB && bi.Name() == "len" && len(call.Call.Args) == 1 {
+				return call.Call.Args[0]
+			}
+		}
+	}
+	return nil
+}
+
+// c02ExecutedWhenRequested — routing/executed-when-requested: the other half of "the plugin is executed iff there is
+// something to ask it".
+//
+// Property clauses: "a capability the plugin declares replaces the corresponding native check" and "verification fails …
+// when the verification plugin … omits a verdict it was asked for". The routing skips the native identity / revocation
+// check for every capability on the plugin's declared list; what stands in for the skipped check is the plugin's verdict,
+// and the verdict exists only if the plugin is run. A success path on which a plugin is named, the request list is not
+// empty and the plugin is not executed therefore accepts the signature with a validation performed by nobody. Hence,
+// necessarily, on the graph of the processing function (and of every helper between it and the VerifySignature call, for
+// the part of the way that lies in the helper): with
+//   - the edges "no plugin is named" (c02Boundary),
+//   - the edges on which the plugin object is nil (with a plugin named the object is the one Manager.Get returned with a
+//     nil error: plugin/get-error, plugin/lookup-results),
+//   - the edges on which the request list handed to the execution is empty (len == 0, == nil) — the one legitimate reason
+//     not to run the plugin (the known finding F8b lives on those edges and is reported by critical-attr-accounting), and
+//   - the edges into the block of the execution call
+//
+// removed, no success exit is reachable from the entry.
+//
+// routing/executed-iff-requested only asks for the guards OF the call (`len > 0` is must-pass before it); it says nothing
+// about the paths around the call, so an enclosing guard that is not taken (`if strict && plugin != nil {`) goes unseen.
+//
+// Shapes accepted: `if p != nil { …; if len(req) > 0 { exec } }`, early returns (`if len(req) == 0 { return nil }`),
+// the execution (with or without the filter and the emptiness test) in a helper, the tests in any order or nesting.
+func c02ExecutedWhenRequested(c *Ctx, ro *c02Roles) {
+	w := c.W
+	rule := "routing (executed when requested): with a plugin named and a non-empty capability request every success path executes the plugin (no success exit is reachable around the execution call except over an edge on which no plugin is named, the plugin object is nil or the request list is empty)"
+	n := 0
+	for _, f := range w.moduleCallees(ro.P) {
+		if f.Blocks == nil || f.Parent() != nil || !w.IsProductFn(f) || !c02ReturnsError(f) || !c02ReachesExec(w, f) {
+			continue
+		}
+		fi := w.Info(f)
+		cut := map[edgeKey]bool{}
+		req := map[ssa.Value]bool{}
+		var execs []*ssa.Call
+		for _, ci := range allCalls(f) {
+			call, ok := ci.(*ssa.Call)
+			if !ok {
+				continue
+			}
+			isExec := calleeName(call) == c02VerifyName
+			if g := staticCallee(call); g != nil && g != f && c02ReachesExec(w, g) {
+				isExec = true
+			}
+			if !isExec {
+				continue
+			}
+			execs = append(execs, call)
+			cutInto(fi, call.Block(), cut)
+			for _, a := range call.Call.Args {
+				if c02IsCapsType(a.Type()) {
+					for v := range fwdPhis(a) {
+						req[v] = true
+					}
+					req[a] = true
+					if p, isPhi := a.(*ssa.Phi); isPhi {
+						for _, e := range p.Edges {
+							req[e] = true
+						}
+					}
+				}
+			}
+		}
+		if len(execs) == 0 {
+			continue
+		}
+		inEntry := false
+		for _, x := range execs {
+			if x.Block().Index == 0 {
+				inEntry = true // the execution is in the entry block: no path of f goes around it
+			}
+		}
+		if inEntry {
+			n++
+			c.OK("routing/executed-when-requested/"+fnName(f), rule, w.InstrPos(execs[0]))
+			continue
+		}
+		if f == ro.P {
+			for e := range ro.unnamed {
+				cut[e] = true
+			}
+		}
+		for _, b := range f.Blocks {
+			iff, ok := blockTerm(b).(*ssa.If)
+			if !ok || len(b.Succs) != 2 {
+				continue
+			}
+			for j := 0; j < 2; j++ {
+				truth := j == 0
+				// the plugin object is nil
+				if bo, isB := c02StripNot(iff.Cond, &truth).(*ssa.BinOp); isB && (bo.Op == token.EQL || bo.Op == token.NEQ) {
+					var o ssa.Value
+					if isNilConst(bo.Y) {
+						o = bo.X
+					} else if isNilConst(bo.X) {
+						o = bo.Y
+					}
+					if o != nil && (bo.Op == token.EQL) == truth && (c02HasMethod(o.Type(), "VerifySignature") || req[o]) {
+						cut[edgeKey{b.Index, j}] = true
+					}
+				}
+				// the request list is empty
+				if v := c02LenArg(iff.Cond); v != nil && req[v] {
+					l := condLabel(iff.Cond, j == 0)
+					if strings.HasPrefix(l, "EQ(len(") && strings.HasSuffix(l, "),const:0)") {
+						cut[edgeKey{b.Index, j}] = true
+					}
+				}
+			}
+		}
+		c.Evals++
+		n++
+		key := "routing/executed-when-requested/" + fnName(f)
+		if path := fi.successWitness(Mode{Kind: mErr}, entryState(), cut); path != nil {
+			c.Bad(key, rule, w.InstrPos(execs[0]), "a success exit of "+fnName(f)+" is reachable with a plugin named and a non-empty request without executing the plugin: the checks the plugin's capabilities replaced are performed by nobody", path...)
+		} else {
+			c.OK(key, rule, w.InstrPos(execs[0]))
+		}
+	}
+	c.MinCount("routing/executed-when-requested/", 1, "functions on the way to the plugin execution")
+}
+
+// c02StripNot removes leading negations of cond, flipping *truth accordingly.
+func c02StripNot(cond ssa.Value, truth *bool) ssa.Value {
+	for {
+		u, isU := cond.(*ssa.UnOp)
+		if !isU || u.Op != token.NOT {
+			return cond
+		}
+		*truth = !*truth
+		cond = u.X
+	}
+}
+
+// c02FailedVerdictEdge: the If edge on which a plugin verdict's Success flag is false — by its label (`!r.Success`) or by
+// the value tested (`r.Success == false`, `false == r.Success`: the same fact spelled as a comparison).
+func c02FailedVerdictEdge(l string, cond ssa.Value, truth bool, respD string) bool {
+	if strings.HasPrefix(l, "F(") && strings.Contains(l, respD+".VerificationResults[") && strings.HasSuffix(l, ".Success)") {
+		return true
+	}
+	s, ok := c02SaysSuccess(cond, truth, 0)
+	return ok && !s
+}
+
+// ---------- the result that receives a plugin verdict -------------------------------------------------------------------
+
+// c02Env maps the parameters of a helper to the arguments of the call the walk came through (context-sensitive, as in
+// c02ResultTypes).
+type c02Env struct {
+	m  map[*ssa.Parameter]ssa.Value
+	up *c02Env
+}
+
+type c02TypeLook struct {
+	w      *World
+	want   string // the validation type, as a quoted constant
+	leaves int    // results decided (allocated with the type, or selected by a test of their Type)
+}
+
+// konst: v is the wanted validation type (a constant, or a parameter whose argument is).
+func (t *c02TypeLook) konst(v ssa.Value, env *c02Env) bool {
+	switch x := c02Unconv(v).(type) {
+	case *ssa.Const:
+		return x.Value != nil && constString(x) == t.want
+	case *ssa.Parameter:
+		if env != nil {
+			if a, ok := env.m[x]; ok {
+				return t.konst(a, env.up)
+			}
+		}
+	}
+	return false
+}
+
+// says: what the If edge (cond, truth) says about `e.Type == wanted` for the result e (eq), if it is about that at all.
+func (t *c02TypeLook) says(cond ssa.Value, truth bool, e ssa.Value, env *c02Env) (eq, ok bool) {
+	bo, isB := c02StripNot(cond, &truth).(*ssa.BinOp)
+	if !isB || (bo.Op != token.EQL && bo.Op != token.NEQ) {
+		return false, false
+	}
+	isType := func(v ssa.Value) bool {
+		u, isU := c02Unconv(v).(*ssa.UnOp)
+		if !isU || u.Op != token.MUL {
+			return false
+		}
+		fa, isFa := u.X.(*ssa.FieldAddr)
+		// the same element read twice (`list[i].Type == t` … `= list[i]`) prints the same: same list, same index value
+		return isFa && (fa.X == e || desc(fa.X) == desc(e)) && isVRPtr(fa.X.Type()) && fieldName(fa.X.Type(), fa.Field) == "Type"
+	}
+	if (isType(bo.X) && t.konst(bo.Y, env)) || (isType(bo.Y) && t.konst(bo.X, env)) {
+		return (bo.Op == token.EQL) == truth, true
+	}
+	return false, false
+}
+
+// typeEdges: the edges of fn on which e.Type == wanted (eq) / e.Type != wanted or e == nil (!eq).
+func (t *c02TypeLook) typeEdges(fn *ssa.Function, e ssa.Value, env *c02Env, eq bool) map[edgeKey]bool {
+	out := map[edgeKey]bool{}
+	for _, b := range fn.Blocks {
+		iff, ok := blockTerm(b).(*ssa.If)
+		if !ok || len(b.Succs) != 2 {
+			continue
+		}
+		for j := 0; j < 2; j++ {
+			if s, ok := t.says(iff.Cond, j == 0, e, env); ok && s == eq {
+				out[edgeKey{b.Index, j}] = true
+			}
+			if !eq {
+				truth := j == 0
+				if bo, isB := c02StripNot(iff.Cond, &truth).(*ssa.BinOp); isB && (bo.Op == token.EQL || bo.Op == token.NEQ) && (bo.Op == token.EQL) == truth {
+					if (bo.X == e && isNilConst(bo.Y)) || (bo.Y == e && isNilConst(bo.X)) {
+						out[edgeKey{b.Index, j}] = true
+					}
+				}
+			}
+		}
+	}
+	return out
+}
+
+// pred: the predicate handed to slices.IndexFunc answers true exactly for results of the wanted type.
+func (t *c02TypeLook) pred(v ssa.Value, env *c02Env) string {
+	var pf *ssa.Function
+	switch x := c02Unconv(v).(type) {
+	case *ssa.Function:
+		pf = x
+	case *ssa.MakeClosure:
+		pf, _ = x.Fn.(*ssa.Function)
+	}
+	if pf == nil || pf.Blocks == nil || len(pf.Params) != 1 || !isVRPtr(pf.Params[0].Type()) {
+		return "unk: the predicate handed to slices.IndexFunc is not followed"
+	}
+	q := pf.Params[0]
+	fi := t.w.Info(pf)
+	for _, b := range pf.Blocks {
+		r, ok := blockTerm(b).(*ssa.Return)
+		if !ok || len(r.Results) != 1 {
+			continue
+		}
+		if eq, ok := t.says(r.Results[0], true, q, nil); ok && eq {
+			continue // return q.Type == wanted
+		}
+		k, isK := r.Results[0].(*ssa.Const)
+		if !isK || k.Value == nil || k.Value.Kind() != constant.Bool {
+			return "unk: the predicate " + fnName(pf) + " answers with a computed value"
+		}
+		// `return true` only behind q.Type == wanted, `return false` only behind q.Type != wanted
+		if b.Index == 0 || fi.reachHit(entryState(), t.typeEdges(pf, q, nil, constant.BoolVal(k.Value)), map[int]bool{b.Index: true}) {
+			return "bad: the predicate " + fnName(pf) + " answers " + k.Value.String() + " on a path that did not compare the result's Type with " + t.want
+		}
+	}
+	return ""
+}
+
+// look: v, consumed in block `at` of fn, is nil or a validation result whose Type is the wanted one, and where it was
+// selected from a list no element of the wanted type was passed over. "" if so, else "bad: …" / "unk: …".
+func (t *c02TypeLook) look(v ssa.Value, fn *ssa.Function, env *c02Env, at *ssa.BasicBlock, depth int) string {
+	if depth > 8 {
+		return "unk: value chain too deep"
+	}
+	w := t.w
+	switch x := v.(type) {
+	case *ssa.Const:
+		if x.IsNil() {
+			return "" // no result: the store faults, nothing lands in another result
+		}
+	case *ssa.Phi:
+		for i, e := range x.Edges {
+			if i < len(x.Block().Preds) {
+				if why := t.look(e, fn, env, x.Block().Preds[i], depth+1); why != "" {
+					return why
+				}
+			}
+		}
+		return ""
+	case *ssa.Alloc:
+		if namedOf(x.Type()) != vrType || x.Referrers() == nil {
+			break
+		}
+		n := 0
+		for _, r := range *x.Referrers() {
+			fa, ok := r.(*ssa.FieldAddr)
+			if !ok || fieldName(x.Type(), fa.Field) != "Type" || fa.Referrers() == nil {
+				continue
+			}
+			for _, rr := range *fa.Referrers() {
+				if st, ok := rr.(*ssa.Store); ok && st.Addr == ssa.Value(fa) {
+					n++
+					if !t.konst(st.Val, env) {
+						return "bad: the result is built with Type " + desc(st.Val) + ", not " + t.want
+					}
+				}
+			}
+		}
+		if n == 0 {
+			return "bad: the result is built without a Type"
+		}
+		t.leaves++
+		return ""
+	case *ssa.Call, *ssa.Extract:
+		call := callOf(v)
+		k := 0
+		if e, isE := v.(*ssa.Extract); isE {
+			k = e.Index
+		}
+		if call == nil {
+			break
+		}
+		g := staticCallee(call)
+		if g == nil || g.Blocks == nil || !w.IsProductFn(g) || len(call.Call.Args) != len(g.Params) {
+			break
+		}
+		ne := &c02Env{m: map[*ssa.Parameter]ssa.Value{}, up: env}
+		for i, q := range g.Params {
+			ne.m[q] = call.Call.Args[i]
+		}
+		n := 0
+		for _, b := range g.Blocks {
+			if r, ok := blockTerm(b).(*ssa.Return); ok && k < len(r.Results) {
+				n++
+				if why := t.look(r.Results[k], g, ne, b, depth+1); why != "" {
+					return why
+				}
+			}
+		}
+		if n > 0 {
+			return ""
+		}
+	case *ssa.UnOp:
+		if x.Op != token.MUL {
+			break
+		}
+		ia, ok := x.X.(*ssa.IndexAddr)
+		if !ok {
+			break
+		}
+		// list[slices.IndexFunc(list, pred)]
+		if ic := callOf(ia.Index); ic != nil && calleeName(ic) == "slices.IndexFunc" && len(ic.Call.Args) == 2 {
+			if ic.Call.Args[0] != ia.X && desc(ic.Call.Args[0]) != desc(ia.X) { // two loads of the same field are the same list
+				return "bad: the index found in " + desc(ic.Call.Args[0]) + " is applied to " + desc(ia.X)
+			}
+			if why := t.pred(ic.Call.Args[1], env); why != "" {
+				return why
+			}
+			t.leaves++
+			return ""
+		}
+		// the current element of a loop over a list of results
+		fi := w.Info(fn)
+		if at == nil || at.Index == 0 || fi.reachHit(entryState(), t.typeEdges(fn, v, env, true), map[int]bool{at.Index: true}) {
+			return "bad: the result taken from " + desc(ia.X) + " is used on a path that did not pass `Type == " + t.want + "` for it"
+		}
+		var loop *sliceLoop
+		size := 0
+		for _, sl := range sliceLoops(fn) {
+			sl := sl
+			lb := loopBlocks(sl.Header)
+			if lb[x.Block().Index] && (loop == nil || len(lb) < size) {
+				loop, size = &sl, len(lb)
+			}
+		}
+		// the loop whose index selects the element (the element may be read again behind the test, outside the natural loop:
+		// `if list[i].Type == t { found = list[i]; break }`)
+		if ii, isI := ia.Index.(ssa.Instruction); isI {
+			for _, sl := range sliceLoops(fn) {
+				sl := sl
+				if sl.Header == ii.Block() {
+					loop = &sl
+				}
+			}
+		}
+		if loop == nil {
+			return "unk: the result taken from " + desc(ia.X) + " is not the element of a recognised loop"
+		}
+		// within one iteration: the edges that leave the loop are no way to the next element
+		moveOn := t.typeEdges(fn, v, env, false)
+		lb := loopBlocks(loop.Header)
+		for bi := range lb {
+			for j, sc := range fn.Blocks[bi].Succs {
+				if !lb[sc.Index] {
+					moveOn[edgeKey{bi, j}] = true
+				}
+			}
+		}
+		if fi.reachHit([]state{{loop.Body.Index, 0, -1}}, moveOn, map[int]bool{loop.Header.Index: true}) {
+			return "bad: the search in " + desc(ia.X) + " can pass over an element without having found its Type different from " + t.want + ": the result of that type is not found"
+		}
+		t.leaves++
+		return ""
+	}
+	return "unk: the origin of the result is not followed: " + desc(v)
+}
+
+// c02VerdictResultType — plugin/verdict-<capability>/result-type.
+//
+// Property clauses: "every reported result carries the action the level assigns to its type", "a failed validation
+// whose action is log is reported in the outcome but does not fail it", "verification fails exactly when a validation
+// whose action is enforce … failed". The plugin's verdict on trusted identities is the outcome of the AUTHENTICITY
+// validation, its verdict on revocation that of the REVOCATION validation. The error of a failed verdict must therefore
+// land in a validation result of that type: in another result it is gated by another type's action (an identity failure
+// rejected under `audit` because integrity is always enforced, or let through although authenticity is enforced); in no
+// result at all (the search for the authenticity result comes back empty although the result is on the list) the failure
+// is reported nowhere. Hence, necessarily, for every store of an Error into a validation result in the capability's arm
+// of the verdict loop, every value the stored-to result can be is
+//   - nil (the search found nothing), or
+//   - a result allocated with Type = the capability's validation type (directly or by a constructor called with it), or
+//   - an element of a list that was selected behind `element.Type == type` (every path to the place the element is taken
+//     passes that edge), while the search moves on to the next element only behind `element.Type != type` (or a nil
+//     element): the first result of the type is found whenever there is one; or list[slices.IndexFunc(list, p)] with a
+//     predicate p that answers true exactly behind that comparison.
+//
+// The search may be written inline, in a helper that is handed the type (`first(results, TypeAuthenticity)`: the
+// parameter is the argument of the call) or with slices.IndexFunc and a predicate; values are followed through phis,
+// returns and calls, not by name.
+func c02VerdictResultType(c *Ctx, R *ssa.Function, fi *FnInfo, headers map[int]bool, starts []state, name, val string) {
+	w := c.W
+	tname := map[string]string{"trusted-identity": "TypeAuthenticity", "revocation": "TypeRevocation"}[name]
+	tv, ok := w.constString("verifier/trustpolicy", tname)
+	key := "plugin/verdict-" + name + "/result-type"
+	rule := "plugin verdict (result type): under capability " + val + " a failed verdict is recorded in a validation result of type trustpolicy." + tname + ": the result stored to is allocated with that type, or is the element of the result list selected by a test of its Type that passes over no element of that type"
+	if !ok || tname == "" {
+		c.Unk(key, rule, w.FnPos(R), "constant trustpolicy."+tname+" not found")
+		return
+	}
+	var sb []*ssa.BasicBlock
+	for _, s := range starts {
+		sb = append(sb, R.Blocks[s.b])
+	}
+	arm := c02CFGReach(sb, nil, func(b *ssa.BasicBlock) bool { return headers[b.Index] })
+	t := &c02TypeLook{w: w, want: fmt.Sprintf("%q", tv)}
+	nSites := 0
+	for _, b := range R.Blocks {
+		if !arm[b.Index] || headers[b.Index] {
+			continue
+		}
+		for _, in := range b.Instrs {
+			var target ssa.Value
+			switch x := in.(type) {
+			case *ssa.Store:
+				if fa, isFa := x.Addr.(*ssa.FieldAddr); isFa && isVRPtr(fa.X.Type()) && fieldName(fa.X.Type(), fa.Field) == "Error" {
+					if k, isK := x.Val.(*ssa.Const); isK && k.IsNil() {
+						continue
+					}
+					target = fa.X
+				}
+			case *ssa.Call:
+				if g := staticCallee(x); g != nil {
+					if k := c02CtorErrParam(w, g); k >= 0 && k < len(x.Call.Args) {
+						target = x
+					}
+				}
+			}
+			if target == nil {
+				continue
+			}
+			nSites++
+			c.Evals++
+			if why := t.look(target, R, nil, b, 0); why != "" {
+				if strings.HasPrefix(why, "unk: ") {
+					c.Unk(key, rule, w.InstrPos(in), strings.TrimPrefix(why, "unk: "))
+				} else {
+					c.Bad(key, rule, w.InstrPos(in), strings.TrimPrefix(why, "bad: "))
+				}
+				return
+			}
+		}
+	}
+	if nSites == 0 || t.leaves == 0 {
+		c.Bad(key, rule, w.FnPos(R), fmt.Sprintf("no validation result of type %s receives the error of a failed verdict (stores found in the arm: %d, results decided: %d)", tname, nSites, t.leaves))
+		return
+	}
+	c.OK(key, rule, w.FnPos(R))
+}
+
+// c02MinVersionWellFormed — plugin/min-version-wellformed.
+//
+// Property clause: "verification fails … when the verification plugin the signature demands is … too old". The age test
+// is semver.Compare("v"+pluginVersion, "v"+minVersion) != -1, and x/mod/semver orders every string that is not valid
+// semver BELOW every valid one: against a minimum version that is not valid semver ("1.2", "v2.0.0", " ") every plugin
+// version compares as new enough, so the clause cannot fail. Hence, necessarily: every success path with a plugin named
+// on which the minimum-version attribute is present (the edges on which the reader's error is not nil removed)
+// passes semver.IsValid(minimum version) — wherever the test is written (in the reader of the attribute: the engine
+// composes the facts of the reader's nil-error exits into the caller's `err == nil` edge; or in the caller on the
+// reader's result).
+func c02MinVersionWellFormed(c *Ctx, fi *FnInfo, mv *ssa.Call, unnamed map[edgeKey]bool, isSent func(l, d string) bool) {
+	w := c.W
+	rule := "must-check: with a plugin named and a minimum-version attribute present, success requires semver.IsValid(minimum version) (an invalid version compares below every plugin version: the age test would always pass)"
+	d := desc(mv) + "#err"
+	// the attribute is present exactly where the reader's error is nil: the edges on which it is not (the sentinel, or
+	// non-nil at all — a later `err == nil && …` re-test has such an edge, which no execution with a nil error takes)
+	cut := fi.edgesMatching(func(l string, _ *ssa.If, _ bool) bool { return isSent(l, d) || l == "NE("+d+",nil)" })
+	for e := range unnamed {
+		cut[e] = true
+	}
+	s := fi.summarizeFrom(Mode{Kind: mErr}, entryState(), cut)
+	c.Evals += s.States
+	ok := len(s.Exits) > 0
+	for _, ex := range s.Exits {
+		found := false
+		for l := range ex.Checked {
+			if strings.HasPrefix(l, "T(call:ngo/internal/semver.IsValid(") && (strings.Contains(l, desc(mv)+"#0") || strings.Contains(l, `const:"io.cncf.notary.verificationPluginMinVersion"`)) {
+				found = true
+			}
+		}
+		if !found {
+			ok = false
+		}
+	}
+	c.Check(ok, "plugin/min-version-wellformed", rule, w.InstrPos(mv), "a minimum-version attribute that is not valid semver is accepted: every plugin version then counts as new enough")
+}
